@@ -30,6 +30,11 @@ def _pool_value(r):
         return gen_dt.date_value(r), {"kind": "date"}
     zone = gen_dt.pick_zone(r, allow_naive=True, midnight_bias=0.35)
     spec, zone, inst, how = gen_dt.dt_value(r, zone=zone)
+    if isinstance(zone, str) and spec.get("$") == "dt" and r.random() < 0.12:
+        # the same value built with the inherited constructor: it carries zoneinfo's object
+        ts = tzdb.wall_to_instants(zone, spec["f"])
+        spec = {"$": "dt_raw", "f": spec["f"], "tz": zone, "fold": 1 if (len(ts) == 2 and inst == ts[1]) else 0}
+        how = "raw"
     return spec, {"kind": "dt", "zone": zone, "how": how}
 
 
@@ -146,6 +151,8 @@ def zone_of(tzobs):
         return tzobs[1]
     if tzobs[0] == "FixedTimezone":
         return tzobs[2]
+    if tzobs[0] == "ZoneInfo" and isinstance(tzobs[1], str) and "/" in tzobs[1] or tzobs[:2] == ["ZoneInfo", "UTC"]:
+        return tzobs[1]          # a DateTime still carrying the foreign tzinfo it was constructed with
     return ("?", tzobs)
 
 
@@ -267,7 +274,7 @@ def l2_check(run):
                     got = ("date", robs[1], None)
                 else:
                     got = ("dt", robs[1], robs[3])
-                    if robs[4] != xobs[4]:
+                    if robs[4] != xobs[4] and not (zone_of(robs[4]) == zone_of(xobs[4]) and isinstance(zone_of(xobs[4]), str)):
                         got = ("dt-other-zone", robs[1], robs[3])
                 ok = got in answers
             if not ok:
